@@ -105,13 +105,24 @@ where
             .configure()
             .expect("SSL connect configuration was invalid.");
 
-        let ssl = config
-            .into_ssl(host)
-            .expect("SSL connect configuration was invalid.");
+        // A hostname OpenSSL cannot use for SNI and verification (empty, longer than 255 bytes,
+        // containing NUL) is an invalid input of this request; report it as an error like the
+        // rustls connectors do instead of panicking.
+        let ssl = if host.contains('\0') {
+            None
+        } else {
+            config.into_ssl(host).ok()
+        };
 
-        ConnectFut {
-            io: Some(AsyncSslStream::new(ssl, io).unwrap()),
-            stream: Some(stream),
+        match ssl {
+            Some(ssl) => ConnectFut {
+                io: Some(AsyncSslStream::new(ssl, io).unwrap()),
+                stream: Some(stream),
+            },
+            None => ConnectFut {
+                io: None,
+                stream: None,
+            },
         }
     }
 }
@@ -133,7 +144,17 @@ where
     fn poll(self: Pin<&mut Self>, cx: &mut Context<'_>) -> Poll<Self::Output> {
         let this = self.get_mut();
 
-        match ready!(Pin::new(this.io.as_mut().unwrap()).poll_connect(cx)) {
+        let io = match this.io.as_mut() {
+            Some(io) => io,
+            None => {
+                return Poll::Ready(Err(io::Error::new(
+                    io::ErrorKind::InvalidInput,
+                    "connection parameters specified invalid server name",
+                )))
+            }
+        };
+
+        match ready!(Pin::new(io).poll_connect(cx)) {
             Ok(_) => {
                 let stream = this.stream.take().unwrap();
                 trace!("TLS handshake success: {:?}", stream.hostname());
